@@ -7,6 +7,9 @@ package client
 import (
 	"context"
 	"errors"
+	"time"
+
+	gettyapi "github.com/apache/dubbo-getty"
 
 	"seata.apache.org/seata-go/pkg/protocol/branch"
 	"seata.apache.org/seata-go/pkg/protocol/message"
@@ -210,5 +213,72 @@ func VerifC15Stream() {
 	vrt.Assert(len(replies) == nr+1, "c15/stream/request-after-failures-is-answered")
 	if len(replies) == nr+1 {
 		vrt.Assert(replies[nr].id == last.id, "c15/stream/reply-carries-request-id")
+	}
+}
+
+// c15Session records what the client really puts on the wire.
+type c15Session struct {
+	gettyapi.Session
+	written []message.RpcMessage
+	attrs   map[interface{}]interface{}
+}
+
+func (s *c15Session) IsClosed() bool                         { return false }
+func (s *c15Session) RemoteAddr() string                     { return "10.0.0.1:8091" }
+func (s *c15Session) Stat() string                           { return "c15-session" }
+func (s *c15Session) GetAttribute(k interface{}) interface{} { return s.attrs[k] }
+func (s *c15Session) SetAttribute(k, v interface{})          { s.attrs[k] = v }
+func (s *c15Session) WritePkg(pkg interface{}, timeout time.Duration) (int, int, error) {
+	if m, ok := pkg.(message.RpcMessage); ok {
+		s.written = append(s.written, m)
+	}
+	return 0, 0, nil
+}
+
+// VerifC15Wire: the reply as it goes out: the real SendAsyncResponse and the real
+// remoting layer write to a recording session; the request's message id is any
+// 32-bit value the coordinator may have chosen (0 and negative ones included).
+func VerifC15Wire() {
+	getty.VerifInit("RandomLoadBalance")
+	RegisterProcessor()
+	var calls []c15Call
+	types := []branch.BranchType{branch.BranchTypeAT, branch.BranchTypeTCC, branch.BranchTypeXA}
+	typ := types[vrt.Choice("type", 3)]
+	m := &c15Manager{typ: typ, calls: &calls}
+	rm.GetRmCacheInstance().RegisterResourceManager(m)
+	s := &c15Session{attrs: map[interface{}]interface{}{}}
+	getty.VerifRegisterSession(s)
+	nreq := vrt.Param("wirerequests", 2)
+	for k := 0; k < nreq; k++ {
+		tag := []string{"w0", "w1", "w2"}[k]
+		r := c15Req{id: vrt.Int32(tag + ".id"), xid: vrt.String(tag+".xid", 2), branchID: vrt.Int64(tag + ".branch"), typ: typ, resource: "r",
+			rollback: vrt.Choice(tag+".phase", 2) == 1, status: branch.BranchStatusPhasetwoCommitted}
+		if r.rollback {
+			r.status = branch.BranchStatusPhasetwoRollbacked
+		}
+		m.status, m.fail = r.status, false
+		before := len(s.written)
+		go getty.GetGettyClientHandlerInstance().OnMessage(s, r.message())
+		vrt.Settle()
+		vrt.Reach("c15/wire/answered")
+		vrt.Assert(len(s.written) == before+1, "c15/wire/exactly-one-frame-written")
+		if len(s.written) != before+1 {
+			return
+		}
+		out := s.written[before]
+		vrt.Assert(out.ID == r.id, "c15/wire/frame-carries-request-id")
+		vrt.Assert(out.Type == message.GettyRequestTypeResponse, "c15/wire/frame-is-a-response")
+		var end message.AbstractBranchEndResponse
+		if r.rollback {
+			b, ok := out.Body.(message.BranchRollbackResponse)
+			vrt.Assert(ok, "c15/wire/body-type-matches-phase")
+			end = b.AbstractBranchEndResponse
+		} else {
+			b, ok := out.Body.(message.BranchCommitResponse)
+			vrt.Assert(ok, "c15/wire/body-type-matches-phase")
+			end = b.AbstractBranchEndResponse
+		}
+		vrt.Assert(end.Xid == r.xid && end.BranchId == r.branchID && end.BranchStatus == r.status, "c15/wire/body-names-request-branch-and-status")
+		vrt.Assert(getty.VerifPendingFutures() == 0, "c15/wire/reply-leaves-no-bookkeeping")
 	}
 }
